@@ -1129,3 +1129,9 @@ _TT_COPY = (IP + "type.py", "        instantiations = [param.typename for param 
 TABLE["C02"] += [B("templated-type-copies-its-argument-typenames", {"S8"}, _TT_COPY)]
 TABLE["C04"] += [B("templated-type-copies-its-argument-typenames", {"B8"}, _TT_COPY)]
 TABLE["C09"] += [B("templated-type-copies-its-argument-typenames", {"W5"}, _TT_COPY)]
+TABLE["C06"] += [
+    B("varargout-taken-from-the-first-overload", {"M9"},
+      (MW, "                    varargout = self._format_varargout(overload.return_type,\n", "                    varargout = self._format_varargout(method[0].return_type,\n")),
+    B("static-check-statement-from-the-first-overload", {"M9"},
+      (MW, "                check_statement = self._wrap_method_check_statement(\n                    static_overload.args)", "                check_statement = self._wrap_method_check_statement(\n                    static_overloads[0].args)")),
+]
